@@ -1,0 +1,6 @@
+//go:build !verif
+// +build !verif
+
+package utxo
+
+func verifYield(site string, key string) {}
